@@ -81,20 +81,28 @@ def build(desc: dict) -> CombDesign:
         else:
             xs = [Signal(w, name=f"x{j}") for j in range(k)]
             inputs = xs
-            if style == "list":
-                args = (xs,)
-            elif style == "nest":
-                args = (xs[:1], {"a": xs[1:2], "b": [xs[2:]]})
-            else:
-                args = tuple(xs)
+        # the operands are `ValueBundle`s: any (also one-shot) iterable / mapping nesting; fresh container per call
+        forms = {
+            "view": lambda: args,
+            "flat": lambda: tuple(xs),
+            "list": lambda: (list(xs),),
+            "tuple": lambda: (tuple(xs),),
+            "nest": lambda: (xs[:1], {"a": xs[1:2], "b": [xs[2:]]}),
+            "gen": lambda: ((x for x in xs),),
+            "iter": lambda: (iter(xs),),
+            "zip": lambda: (zip(xs[0::2], xs[1::2]), xs[k - 1 :] if k % 2 else ()),
+            "dictvals": lambda: ({j: x for j, x in enumerate(xs)}.values(),),
+            "map": lambda: (map(lambda x: x, xs),),
+        }
+        mk = forms[style if k > 0 or style != "view" else "flat"]
         outs = {
-            "sum": (F.sum_value(*args), None),
-            "or": (F.or_value(*args), None),
-            "and": (F.and_value(*args), None if k > 0 else w),  # no values: the signed neutral C(-1) read at width w
+            "sum": (F.sum_value(*mk()), None),
+            "or": (F.or_value(*mk()), None),
+            "and": (F.and_value(*mk()), None if k > 0 else w),  # no values: the signed neutral C(-1) read at width w
         }
         if k > 0:
-            outs["min"] = (F.min_value(*args), None)
-            outs["max"] = (F.max_value(*args), None)
+            outs["min"] = (F.min_value(*mk()), None)
+            outs["max"] = (F.max_value(*mk()), None)
         return CombDesign(inputs, outs)
     if g in ("mux", "switch"):
         w, style = desc["w"], desc["style"]
@@ -112,8 +120,16 @@ def build(desc: dict) -> CombDesign:
             return CombDesign([sel, ai, bi], {"mux": (Value.cast(F.mux(sel, a, b)), None)})
         t = Signal(desc["tw"])
         vals = [mkval(f"v{j}") for j in range(len(desc["keys"]))]
-        cases = [(tuple(k) if isinstance(k, list) else k, v) for k, (v, _) in zip(desc["keys"], vals)]
-        return CombDesign([t] + [vi for _, vi in vals], {"switch": (Value.cast(F.switch_value(t, cases)), None)})
+        keys = [tuple(k) if isinstance(k, list) else k for k in desc["keys"]]
+        objs = [v for v, _ in vals]
+        cases = list(zip(keys, objs))
+        # `cases: Iterable[tuple[key, value]]` - passed in the container form chosen for this configuration
+        cf = desc.get("cf", "list")
+        if cf == "items" and len(set(keys)) == len(keys):
+            arg = dict(cases).items()
+        else:
+            arg = {"tuple": tuple(cases), "gen": (c for c in cases), "iter": iter(cases), "zip": zip(keys, objs), "map": map(lambda c: c, cases)}.get(cf, cases)
+        return CombDesign([t] + [vi for _, vi in vals], {"switch": (Value.cast(F.switch_value(t, arg)), None)})
     raise ValueError(g)
 
 
@@ -370,18 +386,18 @@ def gen_cases(ctx: Check) -> list[Case]:
     import itertools
 
     lim = ctx.pick(6, 10)
-    styles = ["flat", "list", "nest", "view"]
+    styles = ["flat", "list", "nest", "view", "gen", "tuple", "iter", "zip", "dictvals", "map"]
     n = 0
     for w in range(1, lim + 1):
         for k in range(0, lim // w + 1):
-            d = {"g": "reduce", "w": w, "k": k, "style": styles[n % 4] if k else "flat"}
+            d = {"g": "reduce", "w": w, "k": k, "style": styles[n % len(styles)] if k else ["flat", "gen", "list"][n % 3]}
             n += 1
             cases += _cases(d, reduce_ops(d, [list(v) for v in itertools.product(range(1 << w), repeat=k)]), "exhaustive")
     for w, k in ctx.pick(
         [(3, 5), (4, 7), (8, 3), (8, 8), (8, 9), (16, 4), (16, 16), (33, 5), (64, 2), (64, 6), (1, 11), (2, 13)],
         [(w, k) for w in (2, 3, 4, 8, 16, 33, 64) for k in (2, 3, 4, 5, 6, 7, 8, 9, 12, 16, 17)],
     ):
-        d = {"g": "reduce", "w": w, "k": k, "style": styles[(w + k) % 4]}
+        d = {"g": "reduce", "w": w, "k": k, "style": styles[(w + k) % len(styles)]}
         vecs = [[rng.choice(corner_values(w)) for _ in range(k)] for _ in range(10)]
         vecs += [[rng.getrandbits(w) for _ in range(k)] for _ in range(ctx.pick(30, 400))]
         vecs += [[x] * k for x in (0, (1 << w) - 1)]
@@ -404,11 +420,12 @@ def gen_cases(ctx: Check) -> list[Case]:
         d = switch_desc(rng, tw, rng.choice([1, 4, 8, 32]), rng.randint(1, 6), "view" if j % 5 == 4 else "flat")
         if d["style"] == "view" and d["w"] < 2:
             d["style"] = "flat"
+        d["cf"] = ["list", "gen", "tuple", "iter", "zip", "items", "map"][j % 7]
         ts = list(range(1 << tw)) * ctx.pick(2, 4)
         cases += _cases(d, switch_ops(d, rng, ts), "exhaustive")
-    d = {"g": "switch", "tw": 3, "w": 4, "keys": [1, [2, 3], 2, 1, None], "style": "flat"}  # duplicates after a match
+    d = {"g": "switch", "tw": 3, "w": 4, "keys": [1, [2, 3], 2, 1, None], "style": "flat", "cf": "gen"}  # duplicates after a match
     cases += _cases(d, switch_ops(d, rng, list(range(8)) * 2), "directed")
-    d = {"g": "switch", "tw": 2, "w": 4, "keys": [3, 1], "style": "flat"}  # no default: 0 when nothing matches
+    d = {"g": "switch", "tw": 2, "w": 4, "keys": [3, 1], "style": "flat", "cf": "zip"}  # no default: 0 when nothing matches
     cases += _cases(d, switch_ops(d, rng, list(range(4)) * 2), "directed")
     return cases
 
